@@ -96,13 +96,13 @@ type XOp struct {
 }
 
 const (
-	XCAConfigSet   = "ca-config-set"
-	XCARootsSet    = "ca-roots-set"
-	XCAProvider    = "ca-provider-state"
-	XAutopilotSet  = "autopilot-set"
-	XFeatureGate   = "fg-set"
-	XTokenSet      = "token-set"
-	XTokenDelete   = "token-delete"
+	XCAConfigSet  = "ca-config-set"
+	XCARootsSet   = "ca-roots-set"
+	XCAProvider   = "ca-provider-state"
+	XAutopilotSet = "autopilot-set"
+	XFeatureGate  = "fg-set"
+	XTokenSet     = "token-set"
+	XTokenDelete  = "token-delete"
 )
 
 // HistOp is one step of the pre-state history.
@@ -113,13 +113,13 @@ type HistOp struct {
 
 // Run is one execution of the row's command with one supplied-index kind (two for the two-index commands).
 type Run struct {
-	C10     string `json:"c10"` // "run"
-	Kind    string `json:"ikind"`
-	Kind2   string `json:"ikind2,omitempty"`
-	Idx     uint64 `json:"idx"`            // raft index of the command
-	Same    bool   `json:"same,omitempty"` // write content identical to the stored one (where the store skips such writes)
-	V       int    `json:"v,omitempty"`    // content variant
-	NoPol   bool   `json:"nopol,omitempty"` // feature gate: request without policy (status only)
+	C10   string `json:"c10"` // "run"
+	Kind  string `json:"ikind"`
+	Kind2 string `json:"ikind2,omitempty"`
+	Idx   uint64 `json:"idx"`             // raft index of the command
+	Same  bool   `json:"same,omitempty"`  // write content identical to the stored one (where the store skips such writes)
+	V     int    `json:"v,omitempty"`     // content variant
+	NoPol bool   `json:"nopol,omitempty"` // feature gate: request without policy (status only)
 }
 
 // Built is the concrete command: exactly the request structs the FSM decodes, built from a Run and the store.
